@@ -148,13 +148,32 @@ def main(argv=None):
             print('WARNING ' + msg)
             tot['skipped']['harness-error'] += nerr
     unreached = []
+    vanished = []
     for name in getattr(mod, 'REQUIRED_REACH', []):
         if not any(key.endswith(name) and cnt > 0
                    for key, cnt in tot['reach'].items()):
-            unreached.append(name)
+            if anchor_exists(name):
+                unreached.append(name)
+            else:
+                vanished.append(name)
     if unreached:
         inconclusive.append('required code never reached: '
                             + ', '.join(unreached))
+    troubled = sorted(k for k in tot['monitors']
+                      if k.startswith(('unavailable.', 'monitor-error.')))
+    if troubled:
+        # an inner monitor does not fit this tree (renamed function, other
+        # parameter names, other attributes): it is left out and said so
+        print('WARNING inner monitor(s) not applicable to this tree: '
+              + ', '.join(f"{k}={tot['monitors'][k]}" for k in troubled))
+    if vanished:
+        # the function was renamed, moved or inlined in this tree: its reach
+        # cannot be confirmed by name.  The verdict rests on the end-to-end
+        # oracles, which do not depend on the repository's internal names.
+        print('WARNING anchor function(s) not present in this tree under the '
+              'recorded name: ' + ', '.join(vanished))
+        if not tot['judged']:
+            inconclusive.append('anchors not found and nothing was judged')
     min_eval = getattr(mod, 'MIN_EVALUATIONS', {'quick': 10, 'thorough': 10})
     if tot['evaluations'] < min_eval[args.tier]:
         inconclusive.append(f"only {tot['evaluations']} cases evaluated")
@@ -207,6 +226,53 @@ def main(argv=None):
         return 2
     print(f'HELD property={pid} on everything explored')
     return 0
+
+
+_DEFINED = None
+
+
+def defined_names():
+    '''Every `relative/path.py:Qual.name` defined in the working tree, in the
+    form the reach counters use.'''
+    global _DEFINED
+    if _DEFINED is not None:
+        return _DEFINED
+    import ast
+    from . import shim
+    root = os.path.realpath(shim.REPO)
+    found = set()
+    for dirpath, dirs, files in os.walk(root):
+        dirs[:] = [d for d in dirs if d not in ('.git', '__pycache__')]
+        for fname in files:
+            if not fname.endswith('.py'):
+                continue
+            path = os.path.join(dirpath, fname)
+            try:
+                with open(path) as fil:
+                    tree = ast.parse(fil.read())
+            except (OSError, SyntaxError, ValueError):
+                continue
+            rel = os.path.relpath(path, root)
+
+            def walk(node, prefix):
+                for child in ast.iter_child_nodes(node):
+                    if isinstance(child, ast.ClassDef):
+                        walk(child, prefix + child.name + '.')
+                    elif isinstance(child, (ast.FunctionDef,
+                                            ast.AsyncFunctionDef)):
+                        found.add(f'{rel}:{prefix}{child.name}')
+                        walk(child, prefix + child.name + '.<locals>.')
+                    else:
+                        walk(child, prefix)
+            walk(tree, '')
+    _DEFINED = found
+    return found
+
+
+def anchor_exists(name):
+    '''Is a function whose reach key ends with `name` still defined in the
+    working tree?'''
+    return any(key.endswith(name) for key in defined_names())
 
 
 def write_evidence(mod, pid, args, tot, wall, n_viol, known_seen, unreached,
